@@ -60,25 +60,6 @@ def get_tokenizer(name):
     return _TOKENIZERS[name]
 
 
-class _SharedTokenization:
-    """Transparent proxy: returns the wrapped tokenizer's own result, remembering the last one so that
-    the remove_ambiguous=True run of C04 does not pay for the (identical, deterministic) tokenization of
-    the slow reference tokenizer twice.  Only used for 'ref' and only when share=True."""
-
-    def __init__(self, tok):
-        self.tok = tok
-        self.key = None
-        self.val = None
-
-    def tokenize(self, text):
-        if self.key is not None and self.key == text:
-            words, cits = self.val
-            return list(words), list(cits)
-        val = self.tok.tokenize(text)
-        self.key, self.val = text, (list(val[0]), list(val[1]))
-        return val
-
-
 # ------------------------------------------------------------------------------------------------
 # helpers
 # ------------------------------------------------------------------------------------------------
@@ -145,6 +126,13 @@ def _is_int(x):
     return isinstance(x, int) and not isinstance(x, bool)
 
 
+def _cover(cits, prefix="cit:"):
+    """coverage counters (how many citations of each kind the clauses were evaluated on)"""
+    for c in cits:
+        k = prefix + type(c).__name__
+        STATS[k] = STATS.get(k, 0) + 1
+
+
 # ------------------------------------------------------------------------------------------------
 # C02  Reported offsets index the text they claim to index
 # ------------------------------------------------------------------------------------------------
@@ -158,6 +146,7 @@ _PIN_KINDS = ("FullCaseCitation", "ShortCaseCitation", "SupraCitation", "IdCitat
 def _c02_on(text, cits, case, tok_name):
     out = []
     n = len(text)
+    _cover(cits)
     for c in cits:
         fs, fe = c.full_span()
         s, e = c.span()
@@ -274,6 +263,7 @@ def check_C03(case, tokenizers=("aho",)):
             continue
         text, cits = r
         cits = list(cits)
+        _cover(cits)
         out.extend(_order_clauses(cits, case, tokenizer=name))
 
         # idempotence of the public filter on the returned list itself ("filtered once or repeatedly")
@@ -305,7 +295,8 @@ def check_C03(case, tokenizers=("aho",)):
         hist = dict(resolved_names=history, extra_references=len(extra), tokenizer=name)
         for c in cits:
             if not isinstance(c, M.ReferenceCitation) and not any(c is m for m in merged):
-                out.append(_viol("keeps_non_references", case, lost=_desc(c), merged=[_desc(m) for m in merged][:10], **hist))
+                shared = any(tuple(x.span()) == tuple(c.span()) for x in extra)
+                out.append(_viol("keeps_non_references", case, lost=_desc(c), span_shared_with_added_reference=shared, merged=[_desc(m) for m in merged][:10], **hist))
                 break
         out.extend(_order_clauses(merged, case, prefix="twostep_", **hist))
         twice = filter_citations(list(merged))
@@ -321,18 +312,22 @@ ANNOTATE_MODES = ("unchecked", "skip", "wrap")
 _EXCLUDED = (MemoryError, RecursionError)  # DESIGN 2.2: resource exhaustion is outside the claim
 
 
-def check_C04(case, tokenizers=TOKENIZER_NAMES, share=True):
+def check_C04(case, tokenizers=TOKENIZER_NAMES):
     case = _norm_case(case)
     if "text" not in case:
         raise TypeError("C04 is stated for plain strings")
     text = case["text"]
     out = []
     for name in tokenizers:
-        base = get_tokenizer(name)
-        if base is None:
+        # NOTE: every configuration runs the real tokenizer afresh.  Re-using one tokenization for both
+        # remove_ambiguous settings is NOT transparent: CitationBase.__post_init__ overwrites
+        # token.groups["page"] with None for placeholder pages, and a second extraction over the same
+        # token objects then raises in _extract_shortform_citation (observed; not reachable through the
+        # public API, which tokenizes per call).
+        tok = get_tokenizer(name)
+        if tok is None:
             STATS["skipped_no_hyperscan"] += 1
             continue
-        tok = _SharedTokenization(base) if (share and name == "ref") else base
         for ra in (False, True):
             cfg = dict(tokenizer=name, remove_ambiguous=ra)
             try:
@@ -433,6 +428,7 @@ def check_C17(case, tokenizers=("aho",)):
             continue
         text, cits = r
         n = len(text)
+        _cover(cits)
         # joint extent of the citations that start at the same place
         # WEAK: "citations that start at the same place" = equal full-span start among ALL returned citations
         joint_end = {}
@@ -499,9 +495,13 @@ def check_C18(case, tokenizers=("aho",)):
             STATS["skipped_tokenizer_raise"] += 1
             continue
         words = None
+        _cover(cits)
         for c in cits:
             if not isinstance(c, M.ResourceCitation):
                 continue
+            ncand = len(c.exact_editions) if c.exact_editions else len(c.variation_editions)
+            key = "editions:" + ("1" if ncand == 1 else ("0" if ncand == 0 else "several")) + (":guessed" if c.edition_guess is not None else ":unguessed")
+            STATS[key] = STATS.get(key, 0) + 1
             d = dict(citation=_desc(c), year=c.year, metadata_year=getattr(c.metadata, "year", None), tokenizer=name)
             if c.year is not None:
                 my = getattr(c.metadata, "year", None)
@@ -633,6 +633,11 @@ def check_C19(case, tokenizers=("aho",)):
             # not a C19 clause (C04 is stated for plain strings only); reported under its own name so it is not lost
             out.append(_viol("markup_extraction_raised", case, exception=type(e).__name__, message=_abbr(str(e)), tokenizer=name))
             continue
+        _cover(A, "markup_mode:")
+        plain_ref_spans = {tuple(c.span()) for c in B if isinstance(c, M.ReferenceCitation)}
+        STATS["markup_mode:references_not_in_plain_mode"] = STATS.get("markup_mode:references_not_in_plain_mode", 0) + sum(
+            1 for c in A if isinstance(c, M.ReferenceCitation) and tuple(c.span()) not in plain_ref_spans
+        )
         a = [_full_sig(c) for c in A if not isinstance(c, M.ReferenceCitation)]
         b = [_full_sig(c) for c in B if not isinstance(c, M.ReferenceCitation)]
         if a != b:
